@@ -289,6 +289,12 @@ type Typedef struct {
 	// typedef that is (directly or indirectly) derived from itself is
 	// detected instead of recursing without end.
 	resolving bool
+	// failed holds the errors with which the typedef could not be
+	// resolved in run failedIn of Process. A failure is not final (the
+	// module that was missing may be loaded before the next run), but
+	// within one run it is not worked out again for every reference.
+	failed   []error
+	failedIn int
 }
 
 func (Typedef) Kind() string             { return "typedef" }
